@@ -329,6 +329,31 @@ fn pool_d() -> Vec<String> {
     }
     v
 }
+/// key NAMES with unusual shapes (the property quantifies over all key names): hash-tag shapes,
+/// names sharing a tag / differing only inside it, blanks and control bytes, multi-byte UTF-8,
+/// lengths around the SipHash block size, very long names.  All valid UTF-8 (the generic path only
+/// ever sees `String` keys).  No glob metacharacters (`*`, `?`, `[`, `\`): names double as KEYS patterns.
+fn pool_e() -> Vec<String> {
+    let mut v: Vec<String> = [
+        "{a}", "x{a}y", "{a}{b}", "{}", "{", "}", "a{", "{{a}}", "}{", "a}b{", "{a", "a}", "x{}y{a}",
+        "{user:1}:inbox", "{user:1}:sent", "session:{0}", "session:{1}", "{0}", "json:{\"a\":1}",
+        "x{a}1", "x{b}1", "{a}x", "{a}y", "{acct:0}:balance",
+        " ", "a  b", "line\rfeed", "new\nline", "cr\r\nlf", "nul\0byte", "\0", "del\x7f", "\t",
+        "ключ{тег}", "键{值}", "é", "😀", "😀{😀}x",
+        "abcdefg", "abcdefgh", "abcdefghi", "abcdefghijklmno", "abcdefghijklmnop", "abcdefghijklmnopq",
+        "{bcdefg}", "{bcdefgh}", "a{cdefghi}jklmnopq",
+    ]
+    .iter()
+    .map(|s| s.to_string())
+    .collect();
+    v.push(format!("long:{}", "y".repeat(500)));
+    v.push(format!("long:{}{{t}}", "z".repeat(300)));
+    v
+}
+/// unusual names for list keys (destinations of the two-key commands)
+fn pool_ed() -> Vec<String> {
+    ["{q}:pending", "{q}:done", "q:{1}", "q:{2}", "{", "li st\n", "очередь{1}", "queue:{pending}:0123456789abcdef"].iter().map(|s| s.to_string()).collect()
+}
 const VALS: [&[u8]; 6] = [b"a", b"b", b"", b"10", b"\x00\xff", b"a much longer value 0123456789"];
 fn val(rng: &mut Rng) -> Vec<u8> {
     VALS[rng.gen_range(0..VALS.len())].to_vec()
@@ -337,6 +362,24 @@ fn sds(rng: &mut Rng) -> SDS {
     SDS::new(val(rng))
 }
 
+fn name_shape(k: &str) -> &'static str {
+    let tag = k.find('{').and_then(|o| k[o + 1..].find('}').map(|l| l > 0)).unwrap_or(false);
+    if tag {
+        "non-empty {tag}"
+    } else if k.contains('{') || k.contains('}') {
+        "braces without a tag"
+    } else if k.bytes().any(|b| b < 0x20 || b == 0x7f) {
+        "control byte"
+    } else if !k.is_ascii() {
+        "multi-byte UTF-8"
+    } else if k.len() > 100 {
+        "very long"
+    } else if k.contains(' ') {
+        "blank"
+    } else {
+        "length near a SipHash block boundary"
+    }
+}
 struct Ctx {
     sk: Vec<String>,
     dk: Vec<String>,
@@ -499,11 +542,11 @@ fn main() {
     let a: Vec<String> = std::env::args().collect();
     let args = &Args::parse(&a[1..]);
     let mut out = Out::new(&args.out, "C03", args.shards, HEADER);
-    out.nontrivial_rule = "one case = one request sequence (8-30 requests + a KEYS/DBSIZE/MGET/EXISTS/TYPE/GET/LRANGE dump of every key of the case) run on a real 1-shard and a real N-shard ShardedActorState, N drawn from {2,3,16}; all entry paths mixed on 5-8 keys drawn from a pool that covers every shard of every N; 'pure' cases use only single-home requests, 'class' cases add two-key / keyless state-dependent commands, 'scan' cases add SCAN with a small COUNT and cursors, 'wide' cases add sets/hashes/zsets/counters (compared 1-vs-N only); every case also carries the routing facts observed by probing (shard-0 membership and co-location under both routing functions) and the raw DefaultHasher values of its keys; non-trivial = the N-shard run touched at least two different shards; distinct by request text".into();
+    out.nontrivial_rule = "one case = one request sequence (8-30 requests + a KEYS/DBSIZE/MGET/EXISTS/TYPE/GET/LRANGE dump of every key of the case) run on a real 1-shard and a real N-shard ShardedActorState, N drawn from {2,3,16}; all entry paths mixed on 6-10 keys: plain names from two pools that cover every shard of every N plus 1-2 names of unusual shape (hash-tag shapes {a}, x{a}y, {}, {{a}}, shared / differing tags, blanks, CR/LF/NUL/0x7f, multi-byte UTF-8, lengths 7/8/9/15/16/17, 300-500 byte names); every string key is written through one entry path and read back through the other routing function's paths inside the sequence; 'pure' cases use only single-home requests, 'class' cases add two-key / keyless state-dependent commands, 'scan' cases add SCAN with a small COUNT and cursors, 'wide' cases add sets/hashes/zsets/counters (compared 1-vs-N only); every case also carries the routing facts observed by probing (shard-0 membership and co-location under both routing functions) and the raw DefaultHasher values of its keys; non-trivial = the N-shard run touched at least two different shards; distinct by request text".into();
     if std::env::var("C03_PANICS").is_err() { std::panic::set_hook(Box::new(|_| {})); }
     let rt = tokio::runtime::Builder::new_current_thread().enable_all().build().unwrap();
     let range: Vec<u64> = match args.only { Some(i) => vec![i], None => (0..args.n).collect() };
-    let (ps, pd) = (pool_s(), pool_d());
+    let (ps, pd, pe, ped) = (pool_s(), pool_d(), pool_e(), pool_ed());
 
     if args.get("nonutf8", 0) == 1 {
         // observation only (not part of the check): a key that is not valid UTF-8
@@ -532,7 +575,7 @@ fn main() {
             let p = Probe { st: instance(n), n };
             let mut reps: Vec<String> = Vec::new();
             let mut cls: BTreeMap<String, usize> = BTreeMap::new();
-            for k in ps.iter().chain(pd.iter()) {
+            for k in ps.iter().chain(pd.iter()).chain(pe.iter()).chain(ped.iter()) {
                 let mut found = None;
                 for (ci, r) in reps.iter().enumerate() {
                     if p.coloc(r, k, false).await {
@@ -571,9 +614,22 @@ fn main() {
             let mut sk = ps.clone();
             sk.shuffle(&mut rng);
             sk.truncate(rng.gen_range(3..6));
+            // one or two names of unusual shape among the string keys, sometimes one among the list keys
+            let mut ek = pe.clone();
+            ek.shuffle(&mut rng);
+            ek.truncate(rng.gen_range(1..3));
+            sk.retain(|k| !ek.contains(k));
+            sk.extend(ek.iter().cloned());
             let mut dk = pd.clone();
             dk.shuffle(&mut rng);
             dk.truncate(rng.gen_range(2..4));
+            if rng.gen_bool(0.4) {
+                let x = ped[rng.gen_range(0..ped.len())].clone();
+                if !sk.contains(&x) && !dk.contains(&x) {
+                    dk.push(x);
+                }
+            }
+            sk.retain(|k| !dk.contains(k));
             let c = Ctx { sk, dk };
             let len = rng.gen_range(8..31);
             let mut seq: Vec<Rq> = Vec::new();
@@ -586,6 +642,39 @@ fn main() {
                     _ => gen_single_home(&mut rng, &c),
                 };
                 seq.push(r);
+            }
+            // every string key of the case is written through one entry path and read back through the
+            // paths of the OTHER routing function (and once more through its own), in the same sequence
+            let at = rng.gen_range(0..=seq.len());
+            let mut block: Vec<Rq> = Vec::new();
+            for k in c.sk.iter() {
+                let v = val(&mut rng);
+                match rng.gen_range(0..6) {
+                    0 => block.push(Rq::FastSet(k.clone(), v)),
+                    1 => block.push(Rq::PooledSet(k.clone(), v)),
+                    2 => block.push(Rq::PipeSet(vec![(k.clone(), v)])),
+                    3 => block.push(Rq::Gen(Command::set(k.clone(), SDS::new(v)))),
+                    4 => block.push(Rq::Gen(Command::MSet(vec![(k.clone(), SDS::new(v))]))),
+                    _ => block.push(Rq::Gen(Command::Append(k.clone(), SDS::new(v)))),
+                }
+                let wrote_fast = matches!(block.last(), Some(Rq::FastSet(..)) | Some(Rq::PooledSet(..)) | Some(Rq::PipeSet(_)));
+                if wrote_fast {
+                    block.push(match rng.gen_range(0..4) { 0 => Rq::Gen(Command::Get(k.clone())), 1 => Rq::Gen(Command::MGet(vec![k.clone()])), 2 => Rq::Gen(Command::Exists(vec![k.clone()])), _ => Rq::Gen(Command::StrLen(k.clone())) });
+                    block.push(match rng.gen_range(0..3) { 0 => Rq::FastGet(k.clone()), 1 => Rq::PooledGet(k.clone()), _ => Rq::PipeGet(vec![k.clone()]) });
+                } else {
+                    block.push(match rng.gen_range(0..3) { 0 => Rq::FastGet(k.clone()), 1 => Rq::PooledGet(k.clone()), _ => Rq::PipeGet(vec![k.clone()]) });
+                    block.push(match rng.gen_range(0..2) { 0 => Rq::Gen(Command::Get(k.clone())), _ => Rq::Gen(Command::MGet(vec![k.clone()])) });
+                }
+            }
+            for r in &block {
+                out.count(&format!("cross-path:{}", rq_kind(r)));
+            }
+            let tail_part = seq.split_off(at);
+            seq.extend(block);
+            seq.extend(tail_part);
+            let len = seq.len();
+            for k in ek.iter() {
+                out.count(&format!("name-shape:{}", name_shape(k)));
             }
             if flavour == "scan" {
                 seq.push(Rq::Gen(Command::Scan { cursor: 0, pattern: None, count: Some(2) }));
